@@ -29,7 +29,8 @@ def _gen(cfg, kind, seed, simulate, depth, workers, wd, out):
     spool = os.path.join(wd, kind + ".spool")
     try:
         res = tlc.run("CStruct", cfg, simulate=simulate, depth=depth, seed=seed if simulate else None,
-                      spool=spool, tag="c16" + kind, timeout=TLC_TIMEOUT, workers=workers)
+                      spool=spool, tag="c16" + kind, timeout=TLC_TIMEOUT, workers=workers,
+                      env={"C16_PHASE": seed})  # which residue class a strided (quick) configuration samples
         out[kind] = (cfg, res, spool)
     except Exception as ex:  # reported by the main thread
         out[kind] = ex
@@ -54,6 +55,9 @@ def run(ctx):
         with open(ctx.replay) as f:
             rec = json.load(f)
         case = rec["case"]["case"]
+        # (the model self-test is the one TLC run of a replay: the expected values travel with the case)
+        res = tlc.run("CStruct", "CStructMC_dev.cfg", expect_violation=True, tag="c16dev", workers=2)
+        ctx.add_tlc(res, "M:CStructMC_dev.cfg (self-test)")
         fails, tags = c16.replay_case(case)
         ctx.case(key=c16.shape(case))
         ctx.trace(1)
@@ -78,16 +82,17 @@ def run(ctx):
     th = []
     # --- generators (M + G) ------------------------------------------------------------------------
     if quick:
+        # strided samples of the exhaustive enumerations (the seed chooses the residue class) + a small simulation
         gens = [("CStructGen_quick.cfg", "flat", None, None, 4),
                 ("CStructGenNest_quick.cfg", "nest", None, None, 4),
                 ("CStructGenVar_quick.cfg", "var", None, None, 3),
                 ("CStructGenUnion_quick.cfg", "union", None, None, 1),
-                ("CStructSim.cfg", "sim", "num=30", 60, 4)]
+                ("CStructSim_quick.cfg", "sim", "num=20", 60, 4)]
     else:
-        gens = [("CStructGen_quick.cfg", "flat", None, None, 4),
-                ("CStructGenNest_quick.cfg", "nest", None, None, 4),
-                ("CStructGenVar_quick.cfg", "var", None, None, 2),
-                ("CStructGenUnion_quick.cfg", "union", None, None, 1),
+        gens = [("CStructGen_all.cfg", "flat", None, None, 4),
+                ("CStructGenNest_all.cfg", "nest", None, None, 4),
+                ("CStructGenVar_all.cfg", "var", None, None, 2),
+                ("CStructGenUnion_all.cfg", "union", None, None, 1),
                 ("CStructGen_thorough.cfg", "flat4", None, None, 8),
                 ("CStructGenNest_thorough.cfg", "nest3", None, None, 8),
                 ("CStructGenNest2_thorough.cfg", "nest2", None, None, 8),
@@ -102,8 +107,8 @@ def run(ctx):
     total_rows = len(rows)
     if quick:
         rng = ctx.rng
-        rows = [r for r in rows if rng.random() < 0.2]
-    nsh = 3 if quick else 8
+        rows = [r for r in rows if rng.random() < 0.1]
+    nsh = 2 if quick else 8
     for i, sh in enumerate(tlc.shard(rows, nsh)):
         t = threading.Thread(target=_tref, args=(sh, i, wd, out))
         t.start()
@@ -114,6 +119,7 @@ def run(ctx):
         if not res.violation or "LayoutOK" not in res.violation:
             raise tlc.MachineryError("self-test: fault NoTailPad did not violate LayoutOK (invariant vacuous?)")
         ctx.note("selftest_fault_detected_by_model", res.violation)
+        ctx.add_tlc(res, "M:CStructMC_dev.cfg (self-test)")
         if not quick:
             res = tlc.run("CStruct", "CStructMC_thorough.cfg", tag="c16mc", timeout=TLC_TIMEOUT, workers=8)
             ctx.add_tlc(res, "M:CStructMC_thorough.cfg")
